@@ -552,6 +552,16 @@ package zygo
 //@ ghost mayBeRead := false @entry
 //@ ghost mayBeRead := ret0 @after call CanInterface[0]
 //@ C01 assert only-fields-reflection-may-hand-out @before call Interface[*]: mayBeRead
+// a call looks its callee up every time it runs: the name may have been rebound since the last time
+// (a compiled call instruction holds the callee EXPRESSION and the argument forms, nothing else)
+//@ func (CallExprInstr).Execute
+//@ ghost lookedUp := false @entry
+//@ ghost lookedUp := true @after call EvalCallExpression[0]
+//@ ghost resolved := ret0 @after call ResolveCallable[0]
+//@ ghost resolvedName := ret1 @after call ResolveCallable[0]
+//@ C02 assert callee-is-looked-up-on-every-execution @before call CallResolved[*]: lookedUp && arg1 == resolved && arg2 == resolvedName && same(arg3, c.args)
+//@ C02 assert looks-up-the-callee-expression @before call EvalCallExpression[0]: arg1 == c.callee
+//@ fieldsclosed C02 CallExprInstr | callee, args
 // mdef: every target slot is filled with a symbol before the value is compiled; the bind
 // instruction hands each one to BindSymbol, which dereferences it
 //@ func (*Generator).GenerateMultiDef
